@@ -72,6 +72,9 @@ func alphabet(quick bool) []refcodec.Msg {
 		a = append(a, rawpeer.Tunlinkat(0, f, "x"), rawpeer.Tunlinkat(0, f, "a"), rawpeer.Tunlinkat(0, f, "d"))
 		a = append(a, rawpeer.Tgetattr(0, f), rawpeer.Tsetattr(0, f, 8, 0, 3), rawpeer.Treadlink(0, f), rawpeer.Tstatfs(0, f), rawpeer.Tlock(0, f))
 		a = append(a, rawpeer.Txattrwalk(0, f, (f+1)%uint32(len(fids)), ""), rawpeer.Txattrwalk(0, f, (f+1)%uint32(len(fids)), "user.k"), rawpeer.Txattrwalk(0, f, f, "missing"))
+		// an xattr walk IN PLACE that succeeds: the new binding replaces the old
+		// one and starts unopened, whatever the old one's state was
+		a = append(a, rawpeer.Txattrwalk(0, f, f, "user.k"), rawpeer.Txattrwalk(0, f, f, ""))
 		a = append(a, rawpeer.Txattrcreate(0, f, "user.n", 2, 0), rawpeer.Txattrcreate(0, f, "user.k", 0, 2), rawpeer.Txattrcreate(0, f, "user.n", 0, 1))
 		// a one-byte attribute and a two-byte chunk: a write that OVERSHOOTS the
 		// announced size is refused and must change nothing (the one-byte chunk
